@@ -21,7 +21,7 @@ import (
 type tpCase struct {
 	ReplayKind string `json:"replay_kind"`
 	TP         string `json:"tensorproto_b64"`
-	Via        string `json:"via"`    // direct | initializer | constant
+	Via        string `json:"via"`    // direct | initializer | initializer-as-input | constant
 	Expect     string `json:"expect"` // exact | error | exact-or-error
 	Expected   *hx.TJ `json:"expected,omitempty"`
 	Desc       string `json:"desc"`
@@ -70,9 +70,14 @@ func (c *tpCase) run() (v *hx.Violation) {
 					v = mk("history-dependent", "decoding the same TensorProto a second time gives another tensor: "+d)
 				}
 			}
-		case "initializer":
+		case "initializer", "initializer-as-input":
 			tp.Name = "w"
 			g := &onnx.GraphProto{Name: "g", Initializer: []*onnx.TensorProto{tp}, Output: []*onnx.ValueInfoProto{hx.ValueInfoNoShape("w")}}
+			if c.Via == "initializer-as-input" {
+				// the initializer is also listed as a graph input (a default the caller may override): it is decoded,
+				// and refused when damaged, all the same
+				g.Input = []*onnx.ValueInfoProto{hx.ValueInfoNoShape("w")}
+			}
 			var m *gonnx.Model
 			// loaded from a proto the caller keeps: the proto is left as it is and can be loaded again
 			mp := hx.Model(g, 13)
@@ -208,7 +213,7 @@ func checkC12(c *hx.Checker) {
 	var cases []tpCase
 	var tags [][]string
 	add := func(tp *onnx.TensorProto, expect string, exp *ref.T, desc string, tg ...string) {
-		for _, via := range []string{"direct", "initializer", "constant"} {
+		for _, via := range []string{"direct", "initializer", "initializer-as-input", "constant"} {
 			cases = append(cases, tpCase{ReplayKind: "tensorproto", TP: tpB64(tp), Via: via, Expect: expect, Expected: hx.ToTJ(exp), Desc: desc + " via " + via})
 			tags = append(tags, append([]string{"via=" + via, "expect=" + expect}, tg...))
 		}
